@@ -69,3 +69,14 @@ PROPS["C05"] = {
     "level_note": "Trusted: x/crypto primitives. Sampling outside the enumerated bit-flip sub-space.",
     "technique": "deterministic simulation with fault injection on the byte stream (on-path adversary model), reference sender as oracle, seeded search with shrinking + exhaustive bit-flip sub-space",
 }
+
+PROPS["C07"] = {
+    "test": "TestC07", "level": "exploration",
+    "budget": {"quick": 20, "thorough": 400},
+    "rule": "one real hap.Connection with an installed session over a simulated TCP connection; a peer goroutine sends 1..5 reference-framed messages (lengths around 1, 16, 1023..1025, k*1024, up to 5000); the scheduler decides the interleaving of peer writes, caller reads and segment deliveries (split at any offset incl. inside the length field and the tag, several frames per segment), the caller cycles through 1..4 buffer sizes (1..6000), and up to 3 read deadlines trip at scheduler-chosen points; non-trivial = at least one segment split or more than one message; distinct = distinct (lengths, buffer sizes, trips, event-log hash)",
+    "real": ["hc hap.Connection, hap.Context, hap.Session, crypto.secureSession built from /repo's working tree with -tags verif"],
+    "stub": ["TCP connection (simulated, scheduler-owned delivery and deadlines)", "peer: reference framing (verif/sim/ref)", "clock (testing/synctest)"],
+    "assumptions": ["the caller clears an expired read deadline before reading again, as net/http does", "a deadline error is allowed and must lose nothing"],
+    "level_text": "Seeded exploration of segmentations, buffer sizes, read/write interleavings and deadline trips against a reference sender; oracles: returned bytes are always a prefix of what was sent and complete at the end, no EOF/error while the peer is connected, and promptness (the connection may not wait for the network while a completely arrived frame has unreturned plaintext), evaluated at every quiescent point.",
+    "level_note": "Trusted: x/crypto primitives. One reader goroutine (as net/http uses the connection). Sampling, not proof.",
+}
